@@ -172,6 +172,9 @@ def run_check(prop, tier, seed=None):
         from . import c20
         return c20.run(prop, tier, seed)
     n = P.runs[tier]
+    scale = float(os.environ.get('DSIM_SCALE', '1') or 1)     # development only (neutral-change sweeps)
+    if scale != 1:
+        n = max(50, int(n * scale))
     wall_cap = P.wall[tier]
     kf = known.load()
     baseline = known.baseline_path(kf)
